@@ -118,7 +118,12 @@ class SizeConstraint(Constraint):
             raise error
         yield WarningEvent(error=error)
 
-        yield from consume_bytes(self.size_max - self.size_already)
+        padding = self.size_max - self.size_already
+        yield from consume_bytes(padding)
+        # the padding lies within all enclosing constraints, too
+        for constraint in all_size_constraints:
+            if constraint is not self and not constraint.is_obsolete and padding > 0:
+                constraint.size_already += padding
 
     def __repr__(self):
         return f"{type(self).__name__}({self.constraint_path}: {self.size_already}/{self.size_max})"
@@ -131,14 +136,35 @@ class SizeConstraintList(list[SizeConstraint]):
     def bytes_parsed(self, path, size, anticipate_only=False):
         # TODO always in order from deepest to highest
         for constraint in self.copy():
-            try:
+            if constraint.is_obsolete:
+                self.remove(constraint)
+
+        # check all constraints before counting: bytes which are never consumed must not be counted
+        for index, constraint in enumerate(self):
+            if (
+                constraint.size_max is not None
+                and constraint.size_already + size > constraint.size_max
+            ):
+                if not anticipate_only:
+                    # the bytes skipped up to the end of the violated constraint lie within all
+                    # enclosing constraints; constraints opened inside of it are abandoned with it
+                    skipped = max(constraint.size_max - constraint.size_already, 0)
+                    for enclosing in self[:index]:
+                        enclosing.size_already += skipped
+                    for nested in self[index + 1 :]:
+                        nested.is_obsolete = True
                 yield from constraint.bytes_parsed(
                     path,
                     size,
                     anticipate_only=anticipate_only,
                 )
-            except ConstraintObsoleteError:
-                self.remove(constraint)
+
+        for constraint in self:
+            yield from constraint.bytes_parsed(
+                path,
+                size,
+                anticipate_only=anticipate_only,
+            )
 
     def assert_done(self):
         # if not all constraints are obsolete by now, this is a bug
